@@ -260,7 +260,16 @@ def select_plans(plans, tier, rng):
     for p in faulty:
         f = p["fault"]
         groups.setdefault((f["p"], f["sys"], f["k"], f["err"], outcome_class(p)), []).append(p)
-    per = 3 if tier == "quick" else 12
+    per = 2 if tier == "quick" else 12
+    if tier == "quick":
+        # the big family (other dimensions x one stdio table): every second fault-free configuration;
+        # the small families (stdio tables, wait sequences, re-used Command) completely
+        big = lambda p: p["cfg"]["io"] == ["null", "pipe", "raw"] and p["cfg"].get("wseq", ["wait"]) == ["wait"] \
+            and p["cfg"].get("respawn", "none") == "none"
+        keep = [p for p in nofault if not big(p)]
+        rest = sorted([p for p in nofault if big(p)], key=plan_key)
+        rng.shuffle(rest)
+        nofault = keep + rest[:len(rest) // 2]
     chosen = list(nofault)
     for k in sorted(groups, key=str):
         g = sorted(groups[k], key=plan_key)
@@ -389,12 +398,13 @@ def execute(job):
         with open(os.path.join(rundir, "raw%d" % s), "w") as fh:
             fh.write("raw%d\n" % s)
     for n in ("drv_in", "drv_out", "drv_err"):
-        open(os.path.join(rundir, n), "w").close()
+        with open(os.path.join(rundir, n), "w") as fh:
+            fh.write("drvin\n" if n == "drv_in" else "")
     dplan, c, inj = concretise(job["plan"], rundir, job["variant"], job["idx"], job.get("helper"))
     if c["mayHang"]:
         job = dict(job, timeout_ms=1500, noconfirm=True)   # SpawnFlow.tla: this plan blocks by itself
     with open(os.path.join(rundir, "plan.json"), "w") as fh:
-        json.dump(dplan, fh)
+        json.dump(dict(dplan, open=[]), fh)     # the tracer opens the RawFd sources (-f) and keeps the descriptions
     log = os.path.join(rundir, "log.ndjson")
     evf = os.path.join(rundir, "ev.ndjson")
     cmd = [os.path.join(job["tools"], "spawntrace"), "-o", log, "-t", str(job.get("timeout_ms", 4000))]
@@ -402,18 +412,21 @@ def execute(job):
         cmd += ["-i", inj]
     cmd += ["-s", SCHEDULES[job["idx"] % 3]]
     probe = job["variant"] in ("probe", "noalloc")
+    for o in dplan["open"]:
+        cmd += ["-f", "%d:%s:%s" % (o["fd"], "w" if o["write"] else "r", o["path"])]
     if probe:
-        for o in dplan["open"]:
-            cmd += ["-f", "%d:%s:%s" % (o["fd"], "w" if o["write"] else "r", o["path"])]
         cmd += ["--", os.path.join(job["bindir"], "spawnp" if job["variant"] == "probe" else "spawnn")] + probe_args(dplan)
     else:
         cmd += ["--", os.path.join(job["bindir"], "spawnd"), "plan.json", evf]
-    with open(os.path.join(rundir, "drv_in")) as fi, open(os.path.join(rundir, "drv_out"), "a") as fo, \
-            open(os.path.join(rundir, "drv_err"), "a") as fe:
+    with open(os.path.join(rundir, "drv_in")) as fi, open(os.path.join(rundir, "drv_out"), "w") as fo, \
+            open(os.path.join(rundir, "drv_err"), "w") as fe:
         try:
             p = subprocess.run(cmd, cwd=rundir, env=dict(PENV), stdin=fi, stdout=fo, stderr=fe, timeout=60)
         except subprocess.TimeoutExpired:
             raise core.ToolError("tracer did not finish within 60 s in %s" % rundir)
+        # this process shares the open file descriptions the driver started with: their offsets tell
+        # whether an inheriting child worked on these very descriptions
+        inh_pos = [os.lseek(f.fileno(), 0, os.SEEK_CUR) for f in (fi, fo, fe)]
     if p.returncode not in (0, 4):
         raise core.ToolError("spawntrace failed rc=%d in %s: %s" % (p.returncode, rundir, open(os.path.join(rundir, "drv_err")).read()[-500:]))
     tr = [json.loads(l) for l in open(log)]
@@ -424,6 +437,8 @@ def execute(job):
         d = json.loads(open(dpath).read())
         dumps[d["pid"]] = d
     segs = split_rounds(tr)
+    rawpos = {e["fd"]: e["pos"] for e in tr if e["ev"] == "rawpos"}
+    pos = [{"inh": inh_pos[k], "raw": rawpos.get(RAWFD[k], 0)} for k in range(3)]
     out = []
     for rnd, seg in enumerate(segs, start=1):
         cr = c if rnd == 1 else dict(c, args=c["args"] + ([dplan["respawn"]["extra"]] if dplan["respawn"] and dplan["respawn"]["extra"] else []))
@@ -431,6 +446,7 @@ def execute(job):
         dump = dumps.get(cpid)
         info = info_from_tracer(job["idx"], cr, seg) if probe else info_from_driver(job["idx"], cr, dv, rnd)
         ridx = job["idx"] + (ROUND2 if rnd == 2 else 0)
+        info["pos"], info["nprog"] = pos, len(dumps)
         events = assemble(ridx, cr, seg, info, dump)
         out.append({"idx": ridx, "events": events, "c": cr, "dplan": dplan, "inj": inj, "tracer": seg, "driver": dv, "dump": dump,
                     "helper_kind": os.path.basename(helper).rstrip("rc"), "round": rnd})
@@ -563,7 +579,8 @@ def fdent(table, fd):
 
 def assemble(idx, c, tr, info, dump):
     """merge tracer log, driver-reported facts and helper dump into the event list SpawnTrace.tla reads"""
-    facts = {"dio": info["dio"], "raw": info["raw"], "pipes": info["pipes"], "pgrp": info["pgrp"], "pfds": info["pfds"]}
+    facts = {"dio": info["dio"], "raw": info["raw"], "pipes": info["pipes"], "pgrp": info["pgrp"], "pfds": info["pfds"],
+             "pos": info.get("pos", [{"inh": 0, "raw": 0}] * 3), "nprog": info.get("nprog", 0)}
     waited = info["waited"]
     out = [{"ev": "reset", "run": idx, "cfg": c, "facts": facts}]
     returned = False
@@ -877,7 +894,7 @@ def run(tier):
     chk.assumptions = [
         "model checking is exhaustive over the configuration x single-fault space of Spawn_MC.tla (every stdio "
         "combination on a base command and on a command using every other setting; the other dimensions with one (quick) / two (thorough) stdio tables); real executions cover every "
-        "fault-free configuration of that space and, per (fault, predicted outcome) class, %d configurations" % (3 if tier == "quick" else 12),
+        "fault-free configuration of that space and, per (fault, predicted outcome) class, %d configurations" % (2 if tier == "quick" else 12),
         "one injected failure per run; injected failures suppress the call (close: executed, result overwritten)",
         "caller/child interleaving: a third of the runs each free, caller-blocked-in-read-before-the-child-moves, "
         "child-finished-before-the-caller-closes-its-write-end (enforced by the tracer)",
